@@ -264,6 +264,9 @@ def _time_tabulate(ctx) -> None:
                 check("__sub__", f"Time({t}) - {d!r}", lambda: w.call(x(), "__sub__", [d]), ("raise", "TypeError"))
             check("__add__", f"Time({t}) + 5", lambda: w.call(x(), "__add__", [5]), ("is", NotImplemented))
             check("__sub__", f"Time({t}) - 5", lambda: w.call(x(), "__sub__", [5]), ("is", NotImplemented))
+            if "__rsub__" in w.meths:
+                check("__rsub__", f"5 - Time({t})", lambda: w.call(x(), "__rsub__", [5]), ("is", NotImplemented))
+                check("__rsub__", f"timedelta - Time({t})", lambda: w.call(x(), "__rsub__", [_dt.timedelta(hours=1)]), ("is", NotImplemented))
             for o in times:
                 for ov, kind in ((w.time(o.hour, o.minute, o.second, o.microsecond), "Time"), (o, "time")):
                     check("diff", f"Time({t}).diff({kind}({o}), abs=False)", lambda: w.call(x(), "diff", [ov, False]), ("dur", "Duration", us(o) - us(t)))
@@ -293,7 +296,7 @@ def _time_tabulate(ctx) -> None:
         ctx.ob("TIME.tabulated", f"Time.{g}", not bad, f"{counts[g]} cases: " + (f"wrong: {bad[:3]}" if bad else "exact to the microsecond on every case"), m.loc(w.meths[g]))
         ok_all = ok_all and not bad
     if ok_all:
-        ctx.established(("UNITS.components", "DIFF", "CARRIER", "TIMEDELTA", "DIRECTION", "ORDER"), "Time.", "TIME.tabulated")
+        ctx.established(("UNITS.components", "DIFF", "CARRIER", "TIMEDELTA", "DIRECTION", "ORDER", "DUNDER.aware", "DUNDER.guard"), "Time.", "TIME.tabulated")
 
 
 def run(ctx) -> None:
